@@ -2,6 +2,7 @@ package main
 
 import (
 	"fmt"
+	"sort"
 	"go/types"
 	"strings"
 
@@ -35,6 +36,13 @@ func (x *Exec) ret(s *State, rs []Val) bool {
 		return false
 	}
 	par := fr.parent
+	if fr.kind == fkDeferLoop {
+		s.frame = par
+		if fr.onRet != nil {
+			fr.onRet(s)
+		}
+		return false
+	}
 	s.frame = par
 	switch fr.kind {
 	case fkCall:
@@ -851,6 +859,10 @@ func (x *Exec) resolveLocs(pkg *types.Package, locs []string) []string {
 		case strings.HasPrefix(l, "map(") || strings.HasPrefix(l, "elems(") || strings.HasPrefix(l, "cell("):
 			kind := l[:strings.Index(l, "(")]
 			inner := strings.TrimSuffix(l[strings.Index(l, "(")+1:], ")")
+			if strings.HasPrefix(inner, "ptr(") {
+				// ptr(T) is the expression-level spelling of *T
+				inner = "*" + strings.TrimSuffix(strings.TrimPrefix(inner, "ptr("), ")")
+			}
 			var t types.Type
 			if ft := x.fieldType(pkg, inner); ft != nil {
 				t = ft
@@ -993,10 +1005,151 @@ func (w *World) flatArrays(st types.Type, path []int) []string {
 	return []string{w.fieldArray(structKeyOf(st), pathNames(st, path), w.sortOf(leaf))}
 }
 
-// runDeferLoop runs the deferred calls registered by all iterations of a loop.
+// runDeferLoop runs the deferred calls registered by all iterations of a loop
+// as a loop of its own, cut by the invariants of the contract's deferloop
+// clauses: $j is the number of registered calls that have not run yet (they
+// run last-registered first). A variable captured per iteration gets the
+// value that the contract's binds clause states for iteration $i = $j-1; that
+// claim is checked where the defer statement executes.
 func (x *Exec) runDeferLoop(s *State, de *deferEntry, kind int) bool {
-	x.unsup("deferred calls registered in a loop (%s) are not yet supported", de.inLoop.key)
-	return false
+	li := de.inLoop
+	d := de.symInstr
+	fr := s.frame
+	if fr.fn != x.entry || x.contract == nil {
+		x.unsup("deferred calls registered in a loop (%s) need a contract on the function itself", li.key)
+	}
+	mc, ok := d.Call.Value.(*ssa.MakeClosure)
+	if !ok {
+		x.unsup("deferred call in a loop (%s) is not a function literal", li.key)
+	}
+	fn := mc.Fn.(*ssa.Function)
+	for _, b := range li.blocks {
+		if b == li.header {
+			continue
+		}
+		for _, succ := range b.Succs {
+			if !li.body[succ] {
+				x.unsup("loop %s registers deferred calls and has an early exit", li.key)
+			}
+		}
+	}
+	var phi *ssa.Phi
+	for _, in := range li.header.Instrs {
+		if p, ok := in.(*ssa.Phi); ok && p.Comment == "rangeindex" {
+			phi = p
+		}
+	}
+	if phi == nil {
+		x.unsup("loop %s registers deferred calls but is not a range loop over a slice", li.key)
+	}
+	pv, ok := fr.regs[phi].(Term)
+	if !ok {
+		x.unsup("deferloop: no iteration count")
+	}
+	N := add(pv, intLit(1))
+	key := "deferloop " + li.key
+	invs := x.contract.Loops[key]
+	binds := x.contract.DeferBinds[li.key]
+	intT := types.Typ[types.Int]
+	check := func(st *State, what string, j Term) {
+		env := x.entryEnv(st)
+		env.vars["$j"] = SVal{t: j, gt: intT}
+		env.old.vars = env.vars
+		for _, inv := range invs {
+			t, err := env.evalBool(inv.Expr, inv.Src)
+			if err != nil {
+				x.unsup("%v (%s)", err, inv.Where)
+			}
+			name := inv.Name()
+			if name == "" {
+				name = "invariant"
+			}
+			st.goal(fmt.Sprintf("%s#%s:%s:%s", x.entryKey, what, strings.ReplaceAll(key, " ", "_"), name), what, inv.Props(), t, inv.Where, inv.Src)
+		}
+	}
+	assumeInv := func(st *State, j Term) {
+		env := x.entryEnv(st)
+		env.vars["$j"] = SVal{t: j, gt: intT}
+		env.old.vars = env.vars
+		for _, inv := range invs {
+			t, err := env.evalBool(inv.Expr, inv.Src)
+			if err != nil {
+				x.unsup("%v (%s)", err, inv.Where)
+			}
+			st.assume(t)
+		}
+	}
+	s.comment("deferred calls of loop %s", li.key)
+	check(s, "inv-entry", N)
+	// havoc what the deferred function may write
+	mods := map[string]bool{}
+	x.fnMods(fn, mods, map[*ssa.Function]bool{})
+	var names []string
+	for n := range mods {
+		names = append(names, n)
+	}
+	sort.Strings(names)
+	for _, n := range names {
+		if strings.HasPrefix(n, "$") {
+			s.G(n)
+			s.ghost[n] = s.fresh(n, x.ghostVars[n])
+			continue
+		}
+		s.havocH(n)
+	}
+	if x.fnAllocates(fn, map[*ssa.Function]bool{}) {
+		na := s.fresh("$alloc", "Int")
+		s.assume(app("Bool", ">=", na, s.alloc))
+		s.alloc = na
+	}
+	// exit: every registered call has run
+	s2 := s.fork()
+	assumeInv(s2, intLit(0))
+	s2.comment("deferred calls of loop %s all done", li.key)
+	x.work = append(x.work, s2)
+	// generic call number $j-1
+	j := s.fresh("defer.j", "Int")
+	s.assume(mkAnd(lt(intLit(0), j), le(j, N)))
+	assumeInv(s, j)
+	var free []Val
+	for _, b := range mc.Bindings {
+		inLoop := false
+		if bi, ok := b.(ssa.Instruction); ok && li.body[bi.Block()] {
+			inLoop = true
+		}
+		if !inLoop {
+			free = append(free, s.get(b))
+			continue
+		}
+		al, ok := b.(*ssa.Alloc)
+		if !ok {
+			x.unsup("deferloop: captured value %s is not a variable", b.Name())
+		}
+		expr := binds[al.Comment]
+		if expr == nil {
+			x.unsup("deferloop %s: no 'binds %s == ...' clause for the captured variable", li.key, al.Comment)
+		}
+		env := x.entryEnv(s)
+		env.vars["$i"] = SVal{t: sub(j, intLit(1)), gt: intT}
+		v := env.eval(expr)
+		elem := al.Type().(*types.Pointer).Elem()
+		r := s.newRef("defer." + al.Comment)
+		s.tagRef(r, nil)
+		cell := s.toPtr(r, al.Type())
+		s.store(cell, env.rv(v))
+		free = append(free, cell)
+		_ = elem
+	}
+	if !x.enter(s, fn, nil, free, nil, fkDeferLoop) {
+		return false
+	}
+	s.frame.onRet = func(st *State) {
+		check(st, "inv-preserve", sub(j, intLit(1)))
+	}
+	if kind == fkUnwind {
+		s.unwind = false
+	}
+	return true
 }
 
 // externalKey: the contract belongs to a function or method of a package
@@ -1010,11 +1163,6 @@ func (x *Exec) externalKey(key string) bool {
 	if i < 0 {
 		return false
 	}
-	pn := k[:i]
-	for _, sp := range x.w.pkgs {
-		if shortPkg(sp.Pkg) == pn {
-			return false
-		}
-	}
-	return true
+	// only package dig itself can allocate objects of dig's struct types
+	return k[:i] != "dig"
 }
